@@ -302,6 +302,31 @@ Definition sp_step (always : bool) (p : sprov) (e : sev) : sprov :=
 Definition provider_after (always : bool) (cfg0 : scfg) (h : list sev) : sprov :=
   fold_left (sp_step always) h (sp_update always (mkSP None None cfg0 None)).
 
+(* ---------- file-backed material over a history of configuration applications ----------
+   A TLS config may name FILES (ca_cert, cert_chain, private_key paths).  Every application of a configuration (listener
+   add/update -> NewTLSServerContextManager, cluster add/update -> NewTLSClientContextManager) reads the files as they are AT
+   THAT MOMENT.  An application = (path of the CA file, path of the certificate file, snapshot of the file contents then);
+   contents are opaque tokens.  `cached` (Gen/TLSTokens.v tls_ca_pool_cached) = GetX509Pool keeps parsed pools in a
+   process-wide table keyed by the path (the tree reads the file on every call: cached = false). *)
+Definition fsnap := list (nat * nat).
+Fixpoint fget (fs : fsnap) (p : nat) : nat :=
+  match fs with [] => 0 | (q, c) :: r => if Nat.eqb q p then c else fget r p end.
+Fixpoint ffind (fs : fsnap) (p : nat) : option nat :=
+  match fs with [] => None | (q, c) :: r => if Nat.eqb q p then Some c else ffind r p end.
+Record fapply := mkFA { fa_ca : nat; fa_cert : nat; fa_files : fsnap }.
+(* the policy in force: whose certificates are trusted (content of the CA file), which certificate is presented *)
+Definition fpolicy := (nat * nat)%type.
+Definition apply_cfg (cached : bool) (cache : fsnap) (a : fapply) : fpolicy * fsnap :=
+  let now := fget (fa_files a) (fa_ca a) in
+  let ca := if cached then match ffind cache (fa_ca a) with Some c => c | None => now end else now in
+  ((ca, fget (fa_files a) (fa_cert a)), if cached then (match ffind cache (fa_ca a) with Some _ => cache | None => (fa_ca a, now) :: cache end) else cache).
+Fixpoint policy_from (cached : bool) (cache : fsnap) (cur : option fpolicy) (h : list fapply) : option fpolicy :=
+  match h with
+  | [] => cur
+  | a :: h' => let (p, cache') := apply_cfg cached cache a in policy_from cached cache' (Some p) h'
+  end.
+Definition policy_after (cached : bool) (h : list fapply) : option fpolicy := policy_from cached [] None h.
+
 (* ---------- correspondence cases ---------- *)
 Fixpoint mismatches_from {A} (ok : A -> bool) (i : nat) (l : list A) : list nat :=
   match l with
@@ -363,6 +388,17 @@ Definition insp_case := (bool * bool * N * N)%type.
 Definition insp_case_ok (k : insp_case) : bool :=
   match k with (ar, insp, b, got) => N.eqb (mode_code (conn_mode_of true ar insp b)) got end.
 Definition insp_mismatches (l : list insp_case) : list nat := mismatches_from insp_case_ok 0 l.
+
+(* file-backed history: applications, observed (CA whose clients the server accepts, certificate the server presents, CA
+   whose upstreams the client side accepts); 0 = none, 3 = both *)
+Definition file_case := (list fapply * (nat * nat * nat))%type.
+Definition file_case_ok (cached : bool) (k : file_case) : bool :=
+  match k with (h, (sca, cert, cca)) =>
+    match policy_after cached h with
+    | Some (ca, ce) => andb (andb (Nat.eqb ca sca) (Nat.eqb ca cca)) (Nat.eqb ce cert)
+    | None => false
+    end end.
+Definition file_mismatches (cached : bool) (l : list file_case) : list nat := mismatches_from (file_case_ok cached) 0 l.
 
 (* SDS provider: initial config, history, observed context in force: None = not ready, else
    (certificate, CA trusted, server_name that selects it, ALPN, ClientAuth code, insecure_skip of the client side) *)
